@@ -390,7 +390,7 @@ func genC16(t *rapid.T) c16Case {
 	idx := func() int {
 		switch rapid.IntRange(0, 5).Draw(t, "icls") {
 		case 0:
-			return rapid.SampledFrom([]int{-2147483648, -1, n, n + 1, 2147483647}).Draw(t, "ioor")
+			return rapid.SampledFrom([]int{-2147483648, -1, n, n + 1, 2147483647, 1 << 32, 1<<32 + 1, 1<<32 + n - 1, -(1 << 32), -(1 << 32) + 1, 1<<63 - 1, -1 << 63, -1<<63 + 1}).Draw(t, "ioor")
 		default:
 			if n == 0 {
 				return 0
